@@ -173,13 +173,19 @@ class Interp:
                 elif what == "tz":
                     v = D.TimeZone(hours=step["kw"][0], minutes=step["kw"][1])
                 else:
-                    v = RC.build(step["spec"])
+                    extra = None
+                    if step.get("limit"):
+                        key = ("min_point" if step["spec"]["fmt"] == 4 and
+                               step["spec"]["reps"] is None else "max_point")
+                        extra = {key: D.TimePoint(**step["limit"])}
+                    v = RC.build(step["spec"], extra)
             except Exception:       # noqa: BLE001 - not constructible: skip
                 return None
             msg = self.add(v, step_no)
             if what == "rec" and msg is None:
                 # the recurrence's own parts are values too
-                msg = self.add([v.start_point, v.end_point, v.duration], step_no)
+                msg = self.add([v.start_point, v.end_point, v.duration,
+                                v.min_point, v.max_point], step_no)
             return msg or self.check_all(step, step_no)
         # an operation
         res = None
@@ -536,6 +542,23 @@ def make_machine(ctx):
             else:
                 step = {"do": "new", "what": "tz", "kw": list(data.draw(G.st_tz()))}
             self._do(step)
+
+        @rule(data=st.data())
+        def new_limited_rec(self, data):
+            # a recurrence cut by the constructor's max_point / min_point, a
+            # year or so past its anchor
+            _, spec = data.draw(RC.st_spec(mode=self.it.mode, max_reps=6))
+            anchor = spec.get("start") or spec.get("end")
+            down = spec["fmt"] == 4 and spec["reps"] is None
+            limit = dict(anchor, year=anchor["year"] + (-1 if down else 1))
+            for k, top in (("week_of_year", 51), ("day_of_year", 360),
+                           ("day_of_month", 28)):
+                if k in limit:
+                    limit[k] = min(limit[k], top)
+            if limit.get("hour_of_day") == 24:
+                limit["hour_of_day"] = 0
+            self._do({"do": "new", "what": "rec",
+                      "spec": dict(spec, via="ctor"), "limit": limit})
 
         @rule(op=st.sampled_from(OPS), a=st.integers(0, 60), b=st.integers(0, 60),
               n=st.integers(0, 60))
